@@ -474,4 +474,213 @@ Proof.
       * left. exact (f_equal Brk (St2_eta s)).
 Qed.
 End Char.
+
+(* ---------- consequences of step_spec ---------- *)
+Definition progress (hg : bool) (max_step nfmax : Z) (z x : arr T) (s s' : St2) : Prop :=
+  s_count s < max_step /\ s_nfree s <= nfmax /\ InvS s' /\
+  ((hg = false /\ s_count s' = s_count s + 1 /\ s_nfree s' = s_nfree s /\
+    s_ray s' = set_sub (s_ray s) [s_count s] (s_pcur s') /\ clamped z x (s_pcur s')) \/
+   (hg = true /\ s_count s' = s_count s + 1 /\ s_nfree s' = 0 /\
+    s_ray s' = set_sub (s_ray s) [s_count s] (s_pcur s')) \/
+   (hg = true /\ s_count s' = s_count s /\ s_nfree s' = s_nfree s + 1 /\ s_ray s' = s_ray s)).
+
+Lemma step_spec_next hg ms nf z x s s' : step_spec hg ms nf z x s (Next s') -> progress hg ms nf z x s s'.
+Proof.
+  intros [E|(H1 & H2 & t & Ht & Hc)]; [discriminate|].
+  destruct Hc as [(A & B & C)|[(A & B & C)|(A & B & C)]].
+  - injection B as <-. repeat split; auto. left. tauto.
+  - destruct B as [B|B]; [|discriminate]. injection B as <-. repeat split; auto. right; left. tauto.
+  - injection B as <-. repeat split; auto. right; right. tauto.
+Qed.
+Lemma step_spec_brk hg ms nf z x s s' :
+  step_spec hg ms nf z x s (Brk s') -> s' = s \/ progress hg ms nf z x s s'.
+Proof.
+  intros [E|(H1 & H2 & t & Ht & Hc)]; [injection E as <-; left; reflexivity|]. right.
+  destruct Hc as [(A & B & C)|[(A & B & C)|(A & B & C)]]; try discriminate.
+  destruct B as [B|B]; [discriminate|]. injection B as <-. repeat split; auto. right; left. tauto.
+Qed.
+Lemma step_spec_exc hg ms nf z x s e : step_spec hg ms nf z x s (Exc e) -> False.
+Proof.
+  intros [E|(H1 & H2 & t & Ht & Hc)]; [discriminate|].
+  destruct Hc as [(A & B & C)|[(A & [B|B] & C)|(A & B & C)]]; discriminate.
+Qed.
+
+(* the loop, abstractly: any cond and a body satisfying step_spec *)
+Section Loop.
+Variables (hg : bool) (max_step nfmax : Z) (z x : arr T).
+Variables (cond : St2 -> bool) (body : St2 -> ctl St2).
+Hypothesis Hstep : forall s, InvS s -> step_spec hg max_step nfmax z x s (body s).
+
+Lemma loop_inv (P : St2 -> Prop) :
+  (forall s s', P s -> InvS s -> progress hg max_step nfmax z x s s' -> P s') ->
+  forall fuel s0 s1, InvS s0 -> P s0 -> while_fuel fuel cond body s0 = Ok s1 -> InvS s1 /\ P s1.
+Proof.
+  intros HP fuel s0 s1 Hi0 H0 Hw.
+  apply (while_fuel_inv cond body (fun s => InvS s /\ P s) (fun s => InvS s /\ P s)) with (4 := conj Hi0 H0) (5 := Hw).
+  - intros s s' [Hi Hp] _ Eb. pose proof (Hstep s Hi) as Hs. rewrite Eb in Hs.
+    apply step_spec_next in Hs. split; [apply Hs|]. eapply HP; eauto.
+  - intros s s' [Hi Hp] _ Eb. pose proof (Hstep s Hi) as Hs. rewrite Eb in Hs.
+    apply step_spec_brk in Hs. destruct Hs as [->|Hs]; [tauto|]. split; [apply Hs|]. eapply HP; eauto.
+  - tauto.
+Qed.
+
+Lemma loop_no_raise fuel s0 e : InvS s0 -> while_fuel fuel cond body s0 <> Raise e.
+Proof.
+  intros Hi0. apply (while_fuel_no_raise cond body InvS); auto.
+  - intros s s' Hi _ Eb. pose proof (Hstep s Hi) as Hs. rewrite Eb in Hs.
+    apply step_spec_next in Hs. apply Hs.
+  - intros s e' Hi _ Eb. pose proof (Hstep s Hi) as Hs. rewrite Eb in Hs.
+    exact (step_spec_exc _ _ _ _ _ _ _ Hs).
+Qed.
+
+(* lexicographic measure (remaining budget, remaining free steps) *)
+Definition lexm (s : St2) : nat :=
+  (Z.to_nat (max_step - s_count s) * (Z.to_nat nfmax + 2) + Z.to_nat (nfmax + 1 - s_nfree s))%nat.
+
+Lemma progress_lexm s s' : progress hg max_step nfmax z x s s' -> (lexm s' < lexm s)%nat.
+Proof.
+  intros (H1 & H2 & _ & Hc). unfold lexm.
+  assert (Ea : exists a, Z.to_nat (max_step - s_count s) = Datatypes.S a /\
+                         Z.to_nat (max_step - (s_count s + 1)) = a).
+  { exists (Z.to_nat (max_step - s_count s - 1)). split; lia. }
+  destruct Ea as (a & Ea1 & Ea2).
+  destruct Hc as [(A & B & C & _)|[(A & B & C & _)|(A & B & C & _)]].
+  - rewrite B, C, Ea1, Ea2. simpl. lia.
+  - rewrite B, C, Ea1, Ea2. simpl. lia.
+  - rewrite B, C. assert (Z.to_nat (nfmax + 1 - (s_nfree s + 1)) < Z.to_nat (nfmax + 1 - s_nfree s))%nat by lia.
+    lia.
+Qed.
+
+Lemma loop_terminates fuel s0 : InvS s0 -> (lexm s0 < fuel)%nat -> while_fuel fuel cond body s0 <> OutOfFuel.
+Proof.
+  intros Hi0 Hf. apply (while_fuel_measure cond body lexm InvS); auto.
+  intros s s' Hi _ Eb. pose proof (Hstep s Hi) as Hs. rewrite Eb in Hs.
+  apply step_spec_next in Hs. split; [apply Hs|]. apply progress_lexm; auto.
+Qed.
+
+(* free mode: the budget alone is a measure *)
+Definition budm (s : St2) : nat := Z.to_nat (max_step - s_count s).
+Lemma loop_terminates_free fuel s0 :
+  hg = false -> InvS s0 -> (budm s0 < fuel)%nat -> while_fuel fuel cond body s0 <> OutOfFuel.
+Proof.
+  intros Ehg Hi0 Hf. apply (while_fuel_measure cond body budm InvS); auto.
+  intros s s' Hi _ Eb. pose proof (Hstep s Hi) as Hs. rewrite Eb in Hs.
+  apply step_spec_next in Hs. split; [apply Hs|].
+  destruct Hs as (H1 & H2 & _ & [(A & B & C & _)|[(A & _)|(A & _)]]); try congruence.
+  unfold budm. rewrite B. lia.
+Qed.
+End Loop.
+
+Lemma if_negb_false {A} (c : bool) (a b r : A) : c = false -> a = r -> (if negb c then a else b) = r.
+Proof. intros -> <-. reflexivity. Qed.
+
+Lemma fin2_ok zsrc xsrc ms nf s : exists rc, fin2 zsrc xsrc ms nf s = Ok rc.
+Proof. unfold fin2. destruct (_ || _); eexists; reflexivity. Qed.
+
+(* ------------------------------------------------------------------------------------------ *)
+(* theorems about _ray2d_core / _ray2d                                                          *)
+(* ------------------------------------------------------------------------------------------ *)
+Section Thm.
+Variables (z x zgrad xgrad : arr T) (zend xend zsrc xsrc stepsize : T) (max_step : Z) (hg : bool).
+Notation core fuel := (u_ray2d_core_v fuel z x zgrad xgrad zend xend zsrc xsrc stepsize max_step hg).
+Notation single fuel := (u_ray2d_v fuel z x zgrad xgrad zend xend zsrc xsrc stepsize max_step hg).
+
+(* 1a *)
+Theorem ray2d_core_outside :
+  hull2 z x zend xend = false -> forall fuel, core fuel = Ok (full [max_step; 2] (nofZ 0), -1).
+Proof.
+  intros Hh fuel. cbv beta delta [u_ray2d_core_v]. repeat pull_let_eq.
+  apply if_negb_false; [exact Hh|reflexivity].
+Qed.
+
+Theorem ray2d_outside_raises : hull2 z x zend xend = false -> forall fuel, single fuel = Raise ValueError.
+Proof. intros Hh fuel. unfold u_ray2d_v. rewrite ray2d_core_outside by exact Hh. reflexivity. Qed.
+
+(* the core itself never raises *)
+Lemma ray2d_core_no_raise fuel e : core fuel <> Raise e.
+Proof.
+  destruct (hull2 z x zend xend) eqn:Hh.
+  - destruct (ray2d_core_char z x zgrad xgrad zend xend zsrc xsrc stepsize max_step hg Hh)
+      as (cond & body & s0 & Heq & (_ & _ & _ & _ & Hi0) & Hstep).
+    rewrite Heq. destruct (while_fuel fuel cond body s0) as [s1| |] eqn:Ew; simpl; try discriminate.
+    + destruct (fin2_ok zsrc xsrc max_step (nfree_max2 z x stepsize) s1) as [rc ->]. discriminate.
+    + exfalso. eapply loop_no_raise; eauto.
+  - rewrite ray2d_core_outside by exact Hh. discriminate.
+Qed.
+
+(* 4 *)
+Theorem ray2d_core_count_range fuel ray count :
+  core fuel = Ok (ray, count) ->
+  (count = -1 \/ count = -2 \/ 1 <= count < max_step) /\ shape ray = [max_step; 2].
+Proof.
+  intros Hc. destruct (hull2 z x zend xend) eqn:Hh.
+  - destruct (ray2d_core_char z x zgrad xgrad zend xend zsrc xsrc stepsize max_step hg Hh)
+      as (cond & body & s0 & Heq & (Hc0 & _ & _ & Hr0 & Hi0) & Hstep).
+    rewrite Heq in Hc. destruct (while_fuel fuel cond body s0) as [s1| |] eqn:Ew; simpl in Hc; try discriminate.
+    destruct (loop_inv _ _ _ _ _ cond body Hstep
+                (fun s => 1 <= s_count s /\ shape (s_ray s) = [max_step; 2])) with (4 := Ew)
+      as (_ & Hc1 & Hs1); auto.
+    + intros s s' [Hp1 Hp2] _ (_ & _ & _ & [(A & B & C & D & _)|[(A & B & C & D)|(A & B & C & D)]]);
+        rewrite B, D; split; try lia; auto.
+    + rewrite Hc0, Hr0. split; [lia|reflexivity].
+    + unfold fin2 in Hc. destruct ((max_step <=? s_count s1) || _) eqn:Eb; injection Hc as <- <-.
+      * split; [right; left; reflexivity|exact Hs1].
+      * apply orb_false_elim in Eb. destruct Eb as [Eb _]. apply Z.leb_gt in Eb.
+        split; [right; right; lia|exact Hs1].
+  - rewrite ray2d_core_outside in Hc by exact Hh. injection Hc as <- <-. split; [left|]; reflexivity.
+Qed.
+
+(* 1b *)
+Theorem ray2d_raises_value_error_iff fuel :
+  single fuel = OutOfFuel \/ (single fuel = Raise ValueError <-> hull2 z x zend xend = false).
+Proof.
+  destruct (hull2 z x zend xend) eqn:Hh.
+  - unfold u_ray2d_v. destruct (core fuel) as [[ray count]| |] eqn:Ec; simpl.
+    + right. destruct (ray2d_core_count_range fuel ray count Ec) as [Hr _].
+      assert (Hn : count <> -1).
+      { intros ->. destruct (ray2d_core_char z x zgrad xgrad zend xend zsrc xsrc stepsize max_step hg Hh)
+          as (cond & body & s0 & Heq & (Hc0 & _ & _ & _ & Hi0) & Hstep).
+        rewrite Heq in Ec. destruct (while_fuel fuel cond body s0) as [s1| |] eqn:Ew; simpl in Ec; try discriminate.
+        destruct (loop_inv _ _ _ _ _ cond body Hstep (fun s => 1 <= s_count s)) with (4 := Ew) as (_ & Hc1); auto.
+        - intros s s' Hp1 _ (_ & _ & _ & [(A & B & _)|[(A & B & _)|(A & B & _)]]); rewrite B; lia.
+        - lia.
+        - unfold fin2 in Ec. destruct (_ || _); injection Ec as _ E; lia. }
+      destruct (Z.eqb_spec count (-1)); [contradiction|].
+      destruct (count =? -2); split; intros; discriminate.
+    + exfalso. eapply ray2d_core_no_raise; eauto.
+    + left. reflexivity.
+  - right. split; auto. intros _. apply ray2d_outside_raises. exact Hh.
+Qed.
+
+(* 2 *)
+Theorem ray2d_free_terminates fuel :
+  hg = false -> (Z.to_nat max_step + 1 <= fuel)%nat -> core fuel <> OutOfFuel.
+Proof.
+  intros Ehg Hf. destruct (hull2 z x zend xend) eqn:Hh.
+  - destruct (ray2d_core_char z x zgrad xgrad zend xend zsrc xsrc stepsize max_step hg Hh)
+      as (cond & body & s0 & Heq & (Hc0 & _ & _ & _ & Hi0) & Hstep).
+    rewrite Heq. destruct (while_fuel fuel cond body s0) as [s1| |] eqn:Ew; simpl; try discriminate.
+    + destruct (fin2_ok zsrc xsrc max_step (nfree_max2 z x stepsize) s1) as [rc ->]. discriminate.
+    + exfalso. revert Ew. eapply loop_terminates_free; eauto. unfold budm. rewrite Hc0. lia.
+  - rewrite ray2d_core_outside by exact Hh. discriminate.
+Qed.
+
+(* 3 (the bound works for both modes) *)
+Theorem ray2d_terminates fuel :
+  ((Z.to_nat max_step + 1) * (Z.to_nat (nfree_max2 z x stepsize) + 2) + 1 <= fuel)%nat ->
+  core fuel <> OutOfFuel.
+Proof.
+  intros Hf. destruct (hull2 z x zend xend) eqn:Hh.
+  - destruct (ray2d_core_char z x zgrad xgrad zend xend zsrc xsrc stepsize max_step hg Hh)
+      as (cond & body & s0 & Heq & (Hc0 & Hn0 & _ & _ & Hi0) & Hstep).
+    rewrite Heq. destruct (while_fuel fuel cond body s0) as [s1| |] eqn:Ew; simpl; try discriminate.
+    + destruct (fin2_ok zsrc xsrc max_step (nfree_max2 z x stepsize) s1) as [rc ->]. discriminate.
+    + exfalso. revert Ew. eapply loop_terminates; eauto. unfold lexm. rewrite Hc0, Hn0.
+      set (N := nfree_max2 z x stepsize) in *.
+      assert (Z.to_nat (max_step - 1) <= Z.to_nat max_step)%nat by lia.
+      assert (Z.to_nat (N + 1 - 0) <= Z.to_nat N + 1)%nat by lia.
+      nia.
+  - rewrite ray2d_core_outside by exact Hh. discriminate.
+Qed.
+End Thm.
 End Core2.
